@@ -310,6 +310,7 @@ fn parse_number<'a, T: Iterator<Item = &'a Token>>(
 ) -> Result<Cell, Error> {
     let mut exactness = Exactness::Unspecified;
     let mut radix = 10;
+    let prefixed = token.token_type == NumberPrefix;
 
     while token.token_type == NumberPrefix {
         match token.span(text) {
@@ -327,6 +328,8 @@ fn parse_number<'a, T: Iterator<Item = &'a Token>>(
     let span = token.span(text);
     match Number::parse_with_exactness(span, exactness, radix) {
         Some(num) => Ok(Cell::Number(num)),
+        // a prefix must be followed by a number: "#e(" is not the symbol "("
+        None if prefixed => Err(Error::UnexpectedToken(span.to_string())),
         None => Ok(Cell::Symbol(span.to_string())),
     }
 }
